@@ -23,10 +23,12 @@ EXPLANATION = (
     "calling convention of the configurable getitem: a read task is (getitem, source, slice) and carries the two extra arguments "
     "(asarray, lock - in getter's positional order) only where has_keyword(getitem, 'asarray') and has_keyword(getitem, 'lock') "
     "hold, in graph_from_arraylike and in FromArray._layer alike (a documented two-argument getitem(x, index) must keep working "
-    "after a slice is pushed into the read); R24.3 PASS the getter's read happens between lock.acquire() and a release on every "
-    "exit; R24.4 GUARD FromArray._layer reads the source directly (self.array[...], self.array.copy()) only for plain NumPy "
+    "after a slice is pushed into the read); R24.3 PASS the getter's read - and every later use of its result other than returning it, because a lazily "
+    "indexing store does its I/O in the conversion - happens between lock.acquire() and a release on every exit; R24.4 GUARD FromArray._layer reads the source directly (self.array[...], self.array.copy()) only for plain NumPy "
     "sources without a lock, and delegates to graph_from_arraylike (which knows no region) only when no region is set; R24.5 the "
-    "default getter is chosen only when no getitem was supplied (a custom getitem is never overridden)."
+    "default getter is chosen only when no getitem was supplied (a custom getitem is never overridden); R24.6 COVER the eager "
+    "copy of a small NumPy source in _accept_slice selects by the very region that is otherwise handed on as _region (the two "
+    "spellings of one rewrite agree)."
 )
 ASSUMPTIONS = [
     "the source's __getitem__ returns the addressed elements (third-party stores)",
@@ -85,7 +87,7 @@ def _resolve(e, defs, depth=4):
 
 
 def r24_1(ctx):
-    rr = RuleResult("R24.1", "COVER", "every read-affecting operand of FromArray is handed unchanged to every rebuilt node, and from_array hands the user's arguments to the node", min_instances=18)
+    rr = RuleResult("R24.1", "COVER", "every read-affecting operand of FromArray is handed unchanged to every rebuilt node, and from_array hands the user's arguments to the node", min_instances=12)
     ci = _from_array_cls(ctx)
     params = _parameters(ci)
     read_params = [p for p in params if p not in STRUCTURAL_PARAMS]
@@ -117,7 +119,7 @@ def r24_1(ctx):
                 rr.inst(c, passed=v)
                 if not ok:
                     ctx.finding(rr, c, f"a pushdown rebuilds the source node with {p}={v} instead of the node's own `{p}` operand", func=f, node=n)
-    need(n_sites >= 2, "FromArray rebuild sites (_with_chunks, _accept_slice)")
+    need(n_sites >= 1, "FromArray rebuild sites (_with_chunks, _accept_slice, or a shared builder)")
     # (b) from_array: user argument -> operand
     fa = ctx.repo.mod("dask_array.core._conversion").func("from_array")
     cfg = cfg_of(ctx, fa)
@@ -188,17 +190,53 @@ def _gated_names(f, cfg):
     return out
 
 
+def _emitter_helpers(funcs):
+    """Module-level private helpers the emitters call with ``getitem`` among the arguments (the task tuple may have been
+    extracted into one): [(helper FuncInfo, [(caller FuncInfo, call node)])]."""
+    out = {}
+    for f in funcs:
+        for n in ast.walk(f.node):
+            if isinstance(n, ast.Call) and isinstance(n.func, ast.Name) and any(isinstance(a, ast.Name) and a.id == "getitem" for a in n.args):
+                h = f.module.functions.get(n.func.id)
+                if h is not None and h.cls is None and h is not f:
+                    out.setdefault(h.fq, (h, []))[1].append((f, n))
+    return list(out.values())
+
+
 def r24_2(ctx):
-    rr = RuleResult("R24.2", "GUARD", "read tasks pass (asarray, lock) to the configurable getitem only where has_keyword(getitem, 'asarray') and has_keyword(getitem, 'lock') hold - in every sibling that emits read tasks", min_instances=4)
+    rr = RuleResult("R24.2", "GUARD", "read tasks pass (asarray, lock) to the configurable getitem only where has_keyword(getitem, 'asarray') and has_keyword(getitem, 'lock') hold - in every sibling that emits read tasks", min_instances=3)
     ci = _from_array_cls(ctx)
     funcs = [ctx.repo.mod("dask_array._core_utils").func("graph_from_arraylike")] + [f for f in ci.methods.values()]
+    gated_of = {}
+
+    def gated_in(f):
+        if f.fq not in gated_of:
+            gated_of[f.fq] = _gated_names(f, cfg_of(ctx, f))
+        return gated_of[f.fq]
+
+    work = [(f, None) for f in funcs]
+    for h, sites in _emitter_helpers(funcs):
+        # a helper's parameter is gated when every call site passes a gated local (or an empty literal) for it, and
+        # its ``getitem`` parameter receives the caller's ``getitem``
+        hp = [a.arg for a in h.node.args.args]
+        g_params = set()
+        for i, p in enumerate(hp):
+            ok = bool(sites)
+            for caller, call in sites:
+                a = call.args[i] if i < len(call.args) else None
+                if not ((isinstance(a, ast.Name) and a.id in gated_in(caller)) or (a is not None and _empty_literal(a))):
+                    ok = False
+            if ok:
+                g_params.add(p)
+        work.append((h, g_params))
     n = 0
-    for f in funcs:
-        tuples = [t for t in body_walk(f.node) if isinstance(t, ast.Tuple) and isinstance(t.ctx, ast.Load) and t.elts and isinstance(t.elts[0], ast.Name) and t.elts[0].id == "getitem" and len(t.elts) >= 3]
+    for f, g_params in work:
+        head_names = {"getitem"}
+        tuples = [t for t in body_walk(f.node) if isinstance(t, ast.Tuple) and isinstance(t.ctx, ast.Load) and t.elts and isinstance(t.elts[0], ast.Name) and t.elts[0].id in head_names and len(t.elts) >= 3]
         if not tuples:
             continue
         cfg = cfg_of(ctx, f)
-        gated = _gated_names(f, cfg)
+        gated = gated_in(f) | (g_params or set())
         parent = {}
         for p in ast.walk(f.node):
             for ch in ast.iter_child_nodes(p):
@@ -226,7 +264,7 @@ def r24_2(ctx):
             if fixed:
                 if len(fixed) != 2 or "asarray" not in unparse(fixed[0]) or "lock" not in unparse(fixed[1]):
                     ctx.finding(rr, c, f"the extra getitem arguments are {[unparse(e) for e in fixed]}; getter's positional order is (asarray, lock)", func=f, node=st)
-    need(n >= 4, "read-task tuples (getitem, source, slice, ...) in graph_from_arraylike / FromArray._layer")
+    need(n >= 2, "read-task tuples (getitem, source, slice, ...) in graph_from_arraylike / FromArray._layer (or their private helpers)")
     # getter's own signature is what the positional order refers to
     g = ctx.repo.mod("dask_array._core_utils").func("getter")
     names = [a.arg for a in g.node.args.args]
@@ -260,6 +298,82 @@ def r24_3(ctx):
         rr.inst(c, inside_protected_region=prot)
         if not prot:
             ctx.finding(rr, c, "getter reads the source outside the try/finally (or with-block) that holds the lock", func=g, node=s)
+    # a lazily indexing store (netCDF4 / xarray backend style) does its I/O when the handle returned by a[b] is
+    # converted: every use of the read result other than returning it belongs to the protected region too
+    results = set()
+    for s in reads:
+        if isinstance(s, ast.Assign):
+            results |= {t.id for t in s.targets if isinstance(t, ast.Name)}
+    if results:
+        for s in cfg.stmts():
+            if s in reads or isinstance(s, (ast.Return, ast.Try, ast.With, ast.For, ast.While)):
+                continue
+            probe = s.test if isinstance(s, ast.If) else s
+            if not any(isinstance(x, ast.Name) and x.id in results and isinstance(x.ctx, ast.Load) for x in ast.walk(probe)):
+                continue
+            c = site(g, s)[:150]
+            prot = _protected(cfg, s)
+            rr.inst(c, uses_read_result=sorted(results), inside_protected_region=prot)
+            if not prot:
+                ctx.finding(rr, c, f"getter touches the read result ({', '.join(sorted(results))}) after the lock is released: for a store that indexes lazily the actual I/O happens in this conversion, unserialised", func=g, node=s)
+    return rr
+
+
+def _protected(cfg, s):
+    cur = s
+    while cur in cfg.parent:
+        par, fld, _ = cfg.parent[cur]
+        if isinstance(par, ast.Try) and fld == "body" and any(isinstance(x, ast.Call) and isinstance(x.func, ast.Attribute) and x.func.attr == "release" for y in par.finalbody for x in ast.walk(y)):
+            return True
+        if isinstance(par, ast.With) and any("lock" in unparse(i.context_expr) for i in par.items):
+            return True
+        if par is None:
+            break
+        cur = par
+    return False
+
+
+def r24_6(ctx):
+    rr = RuleResult("R24.6", "COVER", "in FromArray._accept_slice the eager copy of a small NumPy source and the deferred region are the same selection: the source is subscripted by the very region that would otherwise be handed on as _region", min_instances=2)
+    ci = _from_array_cls(ctx)
+    params = _parameters(ci)
+    f = ci.methods.get("_accept_slice")
+    need(f is not None, "FromArray._accept_slice")
+    defs = Defs(f.node)
+    # the deferred region: the _region argument of the rebuild (directly, or through a builder method of the class)
+    region_args = []
+    for n in body_walk(f.node):
+        if not isinstance(n, ast.Call):
+            continue
+        if dotted(n.func) == "FromArray" or unparse(n.func) in ("type(self)", "self.__class__"):
+            a = _arg_for(n, params, "_region")
+            if a is not None and a != "GENERIC":
+                region_args.append(a)
+        elif isinstance(n.func, ast.Attribute) and isinstance(n.func.value, ast.Name) and n.func.value.id == "self" and n.func.attr in ci.methods:
+            b = ci.methods[n.func.attr]
+            for m in body_walk(b.node):
+                if isinstance(m, ast.Call) and dotted(m.func) == "FromArray":
+                    ra = _arg_for(m, params, "_region")
+                    bparams = [x.arg for x in b.node.args.args][1:]
+                    if isinstance(ra, ast.Name) and ra.id in bparams:
+                        i = bparams.index(ra.id)
+                        val = n.args[i] if i < len(n.args) else next((k.value for k in n.keywords if k.arg == ra.id), None)
+                        if val is not None:
+                            region_args.append(val)
+    need(region_args, "the _region operand of the node FromArray._accept_slice rebuilds")
+    region_names = {unparse(a) for a in region_args}
+    # eager selections: subscripts of (an alias of) the source
+    src_aliases = {"self.array", "self.operand('array')"} | {nm for nm, vs in defs.defs.items() if any(unparse(v) in ("self.array", "self.operand('array')") for v in vs)}
+    eager = [n for n in body_walk(f.node) if isinstance(n, ast.Subscript) and isinstance(n.ctx, ast.Load) and unparse(n.value) in src_aliases]
+    need(eager, "FromArray._accept_slice slices small NumPy sources eagerly")
+    for r in sorted(region_names):
+        rr.inst(f.construct + f"::_region={r}", deferred_region=r)
+    for n in eager:
+        sel = unparse(n.slice)
+        c = f.construct + f"::{unparse(n)[:60]}"
+        rr.inst(c, eager_selection=sel, deferred_region=sorted(region_names))
+        if sel not in region_names:
+            ctx.finding(rr, c, f"the eager copy selects {unparse(n.value)}[{sel}] but the deferred read of the same rewrite would use _region={sorted(region_names)}: with a region already pending the two differ (the copy drops the earlier offset)", func=f, node=n)
     return rr
 
 
@@ -330,7 +444,7 @@ def r24_5(ctx):
     return rr
 
 
-RULES = [r24_1, r24_2, r24_3, r24_4, r24_5]
+RULES = [r24_1, r24_2, r24_3, r24_4, r24_5, r24_6]
 
 LEVEL_TEXT = (
     "Static decision of structural clauses of C24: the read-affecting operands of a from_array source (lock, getitem, asarray, "
